@@ -468,7 +468,6 @@ fn c15_check(tier: &str, exe: &Path, args: &Args) -> i32 {
 
 fn main() {
     let argv: Vec<String> = std::env::args().skip(1).collect();
-    let exe = std::env::current_exe().unwrap_or_else(|e| harness_error(&e.to_string()));
     if argv.is_empty() {
         harness_error("usage: verifsim_mt check|worker|replay|minimise|selftest ...");
     }
@@ -478,7 +477,10 @@ fn main() {
             let id = args.positional.first().map(|s| s.as_str()).unwrap_or("");
             let tier = args.positional.get(1).map(|s| s.as_str()).unwrap_or("quick");
             match id {
-                "C15" => c15_check(tier, &exe, &args),
+                "C15" => {
+                    let exe = std::env::current_exe().unwrap_or_else(|e| harness_error(&e.to_string()));
+                    c15_check(tier, &exe, &args)
+                },
                 _ => harness_error(&format!("unknown property {}", id)),
             }
         },
@@ -514,6 +516,10 @@ fn main() {
             };
             std::fs::write(outp, m.to_compact()).unwrap_or_else(|e| harness_error(&e.to_string()));
             0
+        },
+        "miri-scenario" => {
+            let seed: u64 = args.positional.first().and_then(|s| s.parse().ok()).unwrap_or(1);
+            c15::miri_scenario(seed)
         },
         "selftest" => {
             // prints the digest of a small batch; the caller compares digests across processes
